@@ -44,6 +44,14 @@ def parseOp (ws : List String) : Option (OpR × Fmt) :=
     | some len, some lines => some (.base (.dropLine len lines), .ret)
     | _, _ => none
   | ["flush"] => some (.base .flush, .ok)
+  | ["yline", len, lines] =>
+    match len.toInt?, lines.toInt? with
+    | some len, some lines => some (.replayLine len lines, .retOptBytes)
+    | _, _ => none
+  | ["wrline", len, lines] =>
+    match len.toInt?, lines.toInt? with
+    | some len, some lines => some (.rewindLine len lines, .ret)
+    | _, _ => none
   | ["replay", len] => len.toInt?.map fun len => (.replay len, .retBytes)
   | ["rewind", len] => len.toInt?.map fun len => (.rewind len, .ret)
   | ["rfd", len] => len.toInt?.map fun len => (.readToFd len noCap, .retBytes)
@@ -79,8 +87,9 @@ def St.other {α : Type} (s : St α) : Option α := if s.second then s.a else s.
 def St.setCur {α : Type} (s : St α) (x : Option α) : St α := if s.second then { s with b := x } else { s with a := x }
 def St.setOther {α : Type} (s : St α) (x : Option α) : St α := if s.second then { s with a := x } else { s with b := x }
 
-def statM (c : Cbuf) : String := s!" | {c.size} {c.used} {linesUsed c} {reused c}"
-def statS (r : Spec.RFifo) : String := s!" | {r.f.size} {r.f.q.length} {Spec.linesUsed r.f} {r.hist.length}"
+def statM (c : Cbuf) : String := s!" | {c.size} {c.used} {linesUsed c} {reused c} {linesReused c}"
+def statS (r : Spec.RFifo) : String :=
+  s!" | {r.f.size} {r.f.q.length} {Spec.linesUsed r.f} {r.hist.length} {Spec.linesReused r}"
 
 /-- the growth policy a model step runs under: a line annotated with the implementation's own
     answer (`<op ...> @ <impl-ret> <impl-size>`, the same annotation the spec run gets) makes the
@@ -144,7 +153,8 @@ def stepSpec (st : St Spec.RFifo) (line : String) : St Spec.RFifo × String :=
     match mn.toInt?, mx.toInt? with
     | some mn, some mx =>
       match Spec.create mn mx with
-      | some f => (st.setCur (some { f := f, hist := [] }), "ok" ++ statS { f := f, hist := [] })
+      | some f =>
+        (st.setCur (some { f := f, hist := [], wrapped := false }), "ok" ++ statS { f := f, hist := [], wrapped := false })
       | none => (st.setCur none, "null")
     | _, _ => (st, "bad-op")
   | [k, len] =>
